@@ -42,7 +42,7 @@ Print Assumptions C26_settled.
 Fixpoint rep (n : nat) (l : label) : list label := match n with O => [] | S m => l :: rep m l end.
 Definition o0 := mkOpts false false.
 Definition job_race : list label :=
-  [LSpawn OConnect] ++ rep 8 (LStep 0 true) ++
+  [LSpawn OConnect] ++ rep 9 (LStep 0 true) ++
   [LSpawn (OSubSrv 0 o0)] ++ rep 9 (LStep 2 true) ++       (* first subscriber: broker subscribe *)
   [LSpawn (OUnsubSrv 0)] ++ rep 7 (LStep 4 true) ++        (* last unsubscribe: job queued *)
   [LSpawn (OSubSrv 0 o0)] ++ rep 8 (LStep 6 true) ++       (* re-subscribe before the job runs *)
@@ -57,7 +57,7 @@ Proof.
 Qed.
 
 Definition job_unsub : list label :=
-  [LSpawn OConnect] ++ rep 8 (LStep 0 true) ++
+  [LSpawn OConnect] ++ rep 9 (LStep 0 true) ++
   [LSpawn (OSubSrv 0 o0)] ++ rep 9 (LStep 2 true) ++
   [LSpawn (OUnsubSrv 0)] ++ rep 7 (LStep 4 true) ++
   [LJobStart 0; LStep 1 false; LJobStart 0; LStep 3 true].  (* Broker.Unsubscribe fails once, then succeeds *)
